@@ -3,6 +3,8 @@ C09 part 2: the code's parser (model) equals reference reader + denotation + the
 -/
 import TzVerif.Model.TzFile
 import TzVerif.Spec.TzGrammar
+import TzVerif.Proofs.TzParseTop
+import TzVerif.Proofs.TzParseAscii
 
 namespace TzVerif.Proofs
 open TzVerif.Model
@@ -14,12 +16,23 @@ def okOf {ε α} : Except ε α → Option α
 
 theorem parsePosixTz_eq_reference (ext : Bool) (b : Bytes) :
     okOf (parsePosixTz b ext) = (Spec.readTz ext b).bind (fun t => (Spec.denoteParts ext t).bind Spec.build) := by
-  sorry
+  rcases hm : parsePosixTz b ext with e | r
+  · -- the model refuses: the reference cannot produce a rule
+    rcases hR : (Spec.readTz ext b).bind (fun t => (Spec.denoteParts ext t).bind Spec.build) with _ | r
+    · rfl
+    · exfalso
+      simp only [Option.bind_eq_some_iff] at hR
+      obtain ⟨t, h1, p, h2, h3⟩ := hR
+      rw [TzParseNT.parse_of_ref ext b t p r h1 h2 h3] at hm
+      cases hm
+  · obtain ⟨t, p, h1, h2, h3⟩ := TzParseNT.parse_ok_imp ext b r hm
+    simp only [okOf, h1, h2, h3, Option.bind_some]
 
 /-- every accepted description is pure ASCII (so UTF-8 validation cannot change accept/reject) -/
 theorem accepted_is_ascii (ext : Bool) (b : Bytes) (r : TransitionRule) (h : parsePosixTz b ext = .ok r) :
     ∀ c ∈ b, c < 128 := by
-  sorry
+  obtain ⟨t, p, h1, h2, _⟩ := TzParseNT.parse_ok_imp ext b r h
+  exact TzParseNT.readTz_ascii h1 h2
 
 /-- the footer of a version-2/3 file: NL, description stripped of ASCII whitespace, NL -/
 theorem parseFooter_ok_iff (footer : Bytes) (ext : Bool) (r : Option TransitionRule) :
@@ -28,6 +41,28 @@ theorem parseFooter_ok_iff (footer : Bytes) (ext : Bool) (r : Option TransitionR
        (trimAsciiWhitespace footer).head? ≠ some 58 ∧ 0 ∉ trimAsciiWhitespace footer ∧
        ((trimAsciiWhitespace footer = [] ∧ r = none) ∨
         (trimAsciiWhitespace footer ≠ [] ∧ ∃ x, r = some x ∧ parsePosixTz (trimAsciiWhitespace footer) ext = .ok x))) := by
-  sorry
+  unfold parseFooter
+  simp only []
+  generalize trimAsciiWhitespace footer = tz
+  by_cases h1 : validUtf8 footer = true
+  case neg => simp [h1]
+  by_cases h2 : footer.length ≥ 2
+  case neg => simp [h1, h2]
+  by_cases h3 : footer.head? = some 10
+  case neg => simp [h1, h2, h3]
+  by_cases h4 : footer.getLast? = some 10
+  case neg => simp [h1, h2, h3, h4]
+  by_cases h5 : tz.head? = some 58
+  case pos => simp [h1, h2, h3, h4, h5]
+  by_cases h6 : 0 ∈ tz
+  case pos => simp [h1, h2, h3, h4, h5, h6]
+  rcases tz with _ | ⟨c, tz⟩
+  · simp [h1, h2, h3, h4]
+    constructor <;> intro h <;> exact h.symm
+  · have h5' : ¬ c = 58 := by simpa using h5
+    rcases hp : parsePosixTz (c :: tz) ext with e | x
+    · simp [h1, h2, h3, h4, h5', h6]
+    · simp [h1, h2, h3, h4, h5', h6]
+      exact eq_comm
 
 end TzVerif.Proofs
